@@ -261,11 +261,11 @@ Qed.
 (** * The text of a nested value as the record reader sees it *)
 
 (** Symbols nested in records under rfc4180, after the field has been unquoted: DQUOTE, the
-    symbol with every DQUOTE preceded by a backslash, DQUOTE. *)
+    symbol with every DQUOTE and every backslash preceded by a backslash, DQUOTE. *)
 Fixpoint esc_bs (s : bytes) : bytes :=
   match s with
   | [] => []
-  | c :: r => (if c =? 34 then [92] else []) ++ c :: esc_bs r
+  | c :: r => (if (c =? 34) || (c =? 92) then [92] else []) ++ c :: esc_bs r
   end.
 
 Definition render_sym (q : bool) (s : bytes) : bytes := if q then 34 :: esc_bs s ++ [34] else s.
@@ -349,15 +349,16 @@ Proof.
   rewrite orb_false_iff, andb_true_iff, IH, (N.eqb_sym c x), negb_true_iff. tauto.
 Qed.
 
-Lemma read_quoted_esc s rest : memb 92 s = false -> read_quoted (esc_bs s ++ 34 :: rest) = Some (s, rest).
+Lemma read_quoted_esc s rest : read_quoted (esc_bs s ++ 34 :: rest) = Some (s, rest).
 Proof.
-  induction s as [|c s IH]; intros H.
+  induction s as [|c s IH].
   - reflexivity.
-  - unfold memb in H. simpl in H. apply orb_false_iff in H as [Hc Hs]. fold (memb 92 s) in Hs.
-    cbn [esc_bs]. destruct (c =? 34) eqn:E.
+  - cbn [esc_bs]. destruct (c =? 34) eqn:E; [|destruct (c =? 92) eqn:E2]; cbn [orb].
     + cbn [app read_quoted]. change (92 =? 34) with false. change (92 =? 92) with true. cbv iota.
-      rewrite (IH Hs). reflexivity.
-    + cbn [app read_quoted]. rewrite E. rewrite (N.eqb_sym 92 c) in Hc. rewrite Hc, (IH Hs). reflexivity.
+      rewrite IH. reflexivity.
+    + cbn [app read_quoted]. change (92 =? 34) with false. change (92 =? 92) with true. cbv iota.
+      rewrite IH. reflexivity.
+    + cbn [app read_quoted]. rewrite E, E2, IH. reflexivity.
 Qed.
 
 Lemma read_symbol_render q closer s rest :
@@ -367,8 +368,8 @@ Lemma read_symbol_render q closer s rest :
   read_symbol closer (render_sym q s ++ rest) = Some (s, rest).
 Proof.
   unfold nested_sym_ok, render_sym. destruct q.
-  - intros _ H _. rewrite negb_true_iff in H. cbn [app read_symbol]. change (34 =? 34) with true. cbv iota.
-    rewrite <- app_assoc. cbn [app]. apply read_quoted_esc; assumption.
+  - intros _ _ _. cbn [app read_symbol]. change (34 =? 34) with true. cbv iota.
+    rewrite <- app_assoc. cbn [app]. apply read_quoted_esc.
   - intros Hc34 H [Hq | Hr]; [discriminate|].
     apply andb_true_iff in H as [H H3]. apply andb_true_iff in H as [H1 H2].
     rewrite negb_true_iff in H1, H2.
@@ -876,7 +877,7 @@ Proof. destruct lines as [|[l f] lines']; reflexivity. Qed.
 Definition dq (s : bytes) : bytes := esc_quotes true s.
 
 Lemma dq_cons c s : dq (c :: s) = (if c =? 34 then [34] else []) ++ c :: dq s.
-Proof. reflexivity. Qed.
+Proof. unfold dq. cbn [esc_quotes negb]. rewrite andb_false_r. reflexivity. Qed.
 
 Definition head_is (c : N) (s : bytes) : bool := match s with x :: _ => x =? c | [] => false end.
 
@@ -1154,8 +1155,8 @@ Qed.
 
 Lemma dq_id s : memb 34 s = false -> dq s = s.
 Proof.
-  unfold dq. induction s as [|x s IH]; [reflexivity|]. rewrite memb_cons. intros H.
-  apply orb_false_iff in H as [Hx Hs]. cbn [esc_quotes]. rewrite N.eqb_sym in Hx. rewrite Hx, (IH Hs). reflexivity.
+  induction s as [|x s IH]; [reflexivity|]. rewrite memb_cons. intros H.
+  apply orb_false_iff in H as [Hx Hs]. rewrite dq_cons. rewrite N.eqb_sym in Hx. rewrite Hx, (IH Hs). reflexivity.
 Qed.
 
 Lemma forallb_memb (p : N -> bool) c s : forallb p s = true -> p c = false -> memb c s = false.
@@ -1171,7 +1172,8 @@ Proof. intros Hz Hc. destruct (dec_chars z Hz) as [_ Hall]. eapply forallb_memb;
 Lemma dq_esc_bs s : dq (esc_bs s) = esc_quotes false s.
 Proof.
   induction s as [|x s IH]; [reflexivity|].
-  cbn [esc_bs esc_quotes]. destruct (x =? 34) eqn:E.
+  cbn [esc_bs esc_quotes]. destruct (x =? 34) eqn:E; [|destruct (x =? 92) eqn:E2]; cbn [orb andb negb].
+  - cbn [app]. rewrite !dq_cons. change (92 =? 34) with false. rewrite E, IH. reflexivity.
   - cbn [app]. rewrite !dq_cons. change (92 =? 34) with false. rewrite E, IH. reflexivity.
   - cbn [app]. rewrite dq_cons, E, IH. reflexivity.
 Qed.
@@ -1725,11 +1727,15 @@ Example ex_nested_default_fields :
                     ends_cr (last (write_fields default_cfg ex_nested_tys vs) []) = false) ex_nested_rows.
 Proof. repeat constructor; vm_compute; reflexivity. Qed.
 
-(** rfc4180: nested symbols with quote, comma, closing bracket / parenthesis, newline, leading blank. *)
+(** rfc4180: nested symbols with quote, comma, closing bracket / parenthesis, newline, leading
+    blank, backslashes. *)
 Definition ex_rfc_nested_tys : list cty := [ty_P; ty_A].
 Definition ex_rfc_nested_rows : list (list cval) :=
   [ [CRec [CNum 2; CSym [97; 34; 98; 44; 93; 10; 32; 99]]; CAdt [89] [CSym [32; 108; 101; 97; 100; 41]; CNil]];
-    [CNil; CAdt [88] [CNum (-1)]] ].
+    [CNil; CAdt [88] [CNum (-1)]];
+    (* backslashes: a\b, a trailing backslash, backslash next to quotes *)
+    [CRec [CNum 3; CSym [97; 92; 98]]; CAdt [89] [CSym [97; 92]; CRec [CNum 4; CSym [92; 34; 92; 34; 92]]]];
+    [CRec [CNum 5; CSym [92; 92]]; CAdt [89] [CSym [34; 92; 110]; CRec [CNum 6; CSym [92]]]] ].
 
 Example ex_nested_rfc :
   cfg_ok rfc_cfg = true /\
@@ -1791,17 +1797,27 @@ Theorem rfc4180_backslash_writer_refuted :
             read_tuple rfc_cfg [TySym] (write_tuple_old rfc_cfg [TySym] [CSym s]) <> Some [CSym s].
 Proof. exists [97; 34; 98]. repeat split; try (vm_compute; reflexivity). vm_compute. discriminate. Qed.
 
-(** The repaired writer still puts the backslash in front of quotes of symbols nested in records,
-    where the reader does un-escape; but it does not escape the backslash itself. *)
-Theorem rfc4180_nested_backslash_refuted :
-  exists s, read_tuple rfc_cfg [ty_P] (write_tuple rfc_cfg [ty_P] [CRec [CNum 2; CSym s]])
-            = Some [CRec [CNum 2; CSym [97; 98]]] /\ s <> [97; 98] /\
-            nested_sym_ok true 93 s = false.
+(** Before the second repair the writer escaped the quotes of a symbol nested in a record with
+    a backslash but left the backslashes of the symbol alone, while the reader of a quoted
+    symbol removes one level of backslashes: [a\b] came back as [ab], [a\] was an error. *)
+Theorem rfc4180_nested_backslash_before_fix_refuted :
+  exists s, representable_row rfc_cfg [ty_P] [CRec [CNum 2; CSym s]] = true /\
+            read_tuple rfc_cfg [ty_P] (write_tuple_nested_old rfc_cfg [ty_P] [CRec [CNum 2; CSym s]])
+            = Some [CRec [CNum 2; CSym [97; 98]]] /\ s <> [97; 98].
 Proof. exists [97; 92; 98]. repeat split; try (vm_compute; reflexivity). discriminate. Qed.
 
-Theorem rfc4180_nested_trailing_backslash_refuted :
-  read_tuple rfc_cfg [ty_P] (write_tuple rfc_cfg [ty_P] [CRec [CNum 2; CSym [97; 92]]]) = None.
-Proof. vm_compute. reflexivity. Qed.
+Theorem rfc4180_nested_trailing_backslash_before_fix_refuted :
+  representable_row rfc_cfg [ty_P] [CRec [CNum 2; CSym [97; 92]]] = true /\
+  read_tuple rfc_cfg [ty_P] (write_tuple_nested_old rfc_cfg [ty_P] [CRec [CNum 2; CSym [97; 92]]]) = None.
+Proof. split; vm_compute; reflexivity. Qed.
+
+(** The old nested writer and the present one agree on symbols without backslash. *)
+Lemma esc_quotes_old_eq s : memb 92 s = false -> esc_quotes_old s = esc_quotes false s.
+Proof.
+  induction s as [|c s IH]; [reflexivity|]. rewrite memb_cons. intros H.
+  apply orb_false_iff in H as [Hc Hs]. rewrite N.eqb_sym in Hc.
+  cbn [esc_quotes_old esc_quotes]. rewrite Hc, (IH Hs). reflexivity.
+Qed.
 
 (** Default format: a tab inside a symbol splits the field. *)
 Theorem default_tab_symbol_refuted :
@@ -1838,8 +1854,8 @@ Theorem default_record_symbol_refuted :
 Proof. repeat split; vm_compute; reflexivity. Qed.
 
 (** Delimiter ",": an ADT with two arguments is cut at its own ", " (only square brackets are
-    counted), and a symbol with an unmatched ']' is an error. For an unmatched '[' the model
-    reports an error where the C++ loop runs past the end of the line. *)
+    counted), and a symbol with an unmatched ']' or '[' is the error "Unbalanced record
+    parenthesis". *)
 Theorem comma_delimiter_refuted :
   let c := {| rfc4180 := false; delim := [44] |} in
   read_tuple c [ty_A] (write_tuple c [ty_A] [CAdt [89] [CSym [97; 98; 99]; CRec [CNum 1; CSym [120]]]]) = None /\
